@@ -20,14 +20,14 @@ Definition E0 : env :=
      site_api_url := graph_base ++ s "/sites/contoso.sharepoint.com:/sites/x" |}.
 
 Definition fi (nm i : str) : fitem :=
-  {| i_name := Some nm; i_id := Some i; i_web := None; i_dl := None; i_size := Some 3%Z; i_mime := None;
+  {| i_name := Some nm; i_id := Some i; i_web := None; i_dl := None; i_size := Some 3%Z; i_facet := FcObj None false;
      i_modified := None; i_created := Some (s "2024-01-15T10:30:00.9Z");
      i_fields := Some [(s "Project", s "1"); (s "Created", s "2"); (s "@odata.etag", s "3")] |}.
 
 Definition T0 : list node :=
   [File (fi (s "a.txt") (s "f1"));
-   Folder (Some (s "Docs")) (Some (s "d1"))
-     [JunkDict; File (fi (s "b c.pdf") (s "f2")); Folder (Some (s "Sub")) (Some (s "d2")) [File (fi (s "c") (s "f3"))]];
+   Folder (Some (s "Docs")) (Some (s "d1")) (FcObj None false, None)
+     [JunkDict; File (fi (s "b c.pdf") (s "f2")); Folder (Some (s "Sub")) (Some (s "d2")) (FcNull, Some FcNull) [File (fi (s "c") (s "f3"))]];
    NonDict; File (fi (s "z") (s "f4"))].
 
 Definition P0 : paging := fun oid =>
